@@ -55,6 +55,9 @@ const (
 	OFPLe // -> Bool
 	OFPEq // -> Bool (IEEE equality: NaN differs from everything, +0 == -0)
 	OFPIsNaN
+	OFPTrunc // FP -> FP, round to integral toward zero (math.Trunc)
+	OFPFloor // toward negative infinity (math.Floor)
+	OFPCeil  // toward positive infinity (math.Ceil)
 )
 
 // wFP marks a term of sort (_ FloatingPoint 11 53).
@@ -64,7 +67,8 @@ var opNames = [...]string{"const", "var", "not", "and", "or", "=", "ite", "bvadd
 	"bvudiv", "bvurem", "bvsdiv", "bvsrem", "bvand", "bvor", "bvxor", "bvshl", "bvlshr", "bvashr",
 	"bvult", "bvule", "bvslt", "bvsle", "extract", "zero_extend", "sign_extend", "concat",
 	"(_ to_fp 11 53)", "(_ to_fp 11 53) RNE", "(_ to_fp_unsigned 11 53) RNE", "(_ fp.to_sbv 64) RTZ",
-	"fp.add RNE", "fp.sub RNE", "fp.mul RNE", "fp.div RNE", "fp.neg", "fp.lt", "fp.leq", "fp.eq", "fp.isNaN"}
+	"fp.add RNE", "fp.sub RNE", "fp.mul RNE", "fp.div RNE", "fp.neg", "fp.lt", "fp.leq", "fp.eq", "fp.isNaN",
+	"fp.roundToIntegral RTZ", "fp.roundToIntegral RTN", "fp.roundToIntegral RTP"}
 
 type Term struct {
 	op   Op
@@ -532,6 +536,12 @@ func (t *Term) eval(m Model, memo map[*Term]uint64) uint64 {
 	case OFPIsNaN:
 		x := math.Float64frombits(t.a[0].eval(m, memo))
 		r = b2u(x != x)
+	case OFPTrunc:
+		r = math.Float64bits(math.Trunc(math.Float64frombits(t.a[0].eval(m, memo))))
+	case OFPFloor:
+		r = math.Float64bits(math.Floor(math.Float64frombits(t.a[0].eval(m, memo))))
+	case OFPCeil:
+		r = math.Float64bits(math.Ceil(math.Float64frombits(t.a[0].eval(m, memo))))
 	default:
 		r, _ = foldBin(t.op, t.a[0].w, t.a[0].eval(m, memo), t.a[1].eval(m, memo))
 	}
@@ -686,6 +696,20 @@ func mkFPArith(op Op, a, b *Term) *Term {
 		}
 	}
 	return &Term{op: op, w: wFP, a: []*Term{a, b}}
+}
+
+func mkFPRound(op Op, a *Term) *Term {
+	if x, ok := fpConstOf(a); ok {
+		switch op {
+		case OFPTrunc:
+			return mkFPConst(math.Trunc(x))
+		case OFPFloor:
+			return mkFPConst(math.Floor(x))
+		case OFPCeil:
+			return mkFPConst(math.Ceil(x))
+		}
+	}
+	return &Term{op: op, w: wFP, a: []*Term{a}}
 }
 
 func mkFPNeg(a *Term) *Term {
